@@ -32,6 +32,25 @@ def jdump(o):
     return json.dumps(o, sort_keys=True, separators=(",", ":"), default=repr)
 
 
+def clip(o, maxstr=240, maxlist=16, depth=0):
+    """JSON value for the evidence file: long strings and lists are cut (with a marker) so that the file stays small;
+    the full case of a violation is in its replay file, never here."""
+    if isinstance(o, str):
+        return o if len(o) <= maxstr else o[:maxstr] + f"...[{len(o) - maxstr} more chars]"
+    if isinstance(o, (list, tuple)):
+        xs = [clip(x, maxstr, maxlist, depth + 1) for x in o[:maxlist]]
+        if len(o) > maxlist:
+            xs.append(f"...[{len(o) - maxlist} more items]")
+        return xs
+    if isinstance(o, dict):
+        items = list(o.items())
+        out = {str(k): clip(v, maxstr, maxlist, depth + 1) for k, v in items[:maxlist * 2]}
+        if len(items) > maxlist * 2:
+            out["..."] = f"[{len(items) - maxlist * 2} more keys]"
+        return out
+    return o
+
+
 def case_hash(case):
     return hashlib.sha256(jdump(case).encode()).hexdigest()[:16]
 
@@ -402,14 +421,14 @@ def check(pid, tier, seed, replay, no_lean=False):
             "evaluations": len(cases) + searched,
             "distinct_nontrivial": nontrivial,
             "rule": getattr(mod, "RULE", ""),
-            "samples": json.loads(json.dumps(samples, default=repr)),
+            "samples": clip(json.loads(json.dumps(samples, default=repr))),
             "traces_validated_against_impl": res["validated"],
             "disagreements_checked": len(res["mismatches"]),
             "distribution": dist,
             "corpus_cases": len(corpus),
             "oracle_failures_attributed_to_known_findings": attributed_n,
             "known_findings_reconfirmed": kf_confirmed,
-            "broken_obligations": json.loads(json.dumps(broken, default=repr))[:10],
+            "broken_obligations": clip(json.loads(json.dumps(broken, default=repr))[:10]),
             "exhaustive": bool(getattr(mod, "EXHAUSTIVE", lambda t: False)(tier)),
             "explanation": getattr(mod, "EXPLANATION", ""),
         },
